@@ -105,9 +105,12 @@ func sameReply(got, want Step) bool {
 // bounded by live entries + one sentinel + the entries pinned by open iterators,
 // and with no iterator open no removed entry is retained.
 func (o *imObj) retention() (bool, map[string]int) {
-	nodes, deleted, refSum := iterable.VerifListStats(o.m)
-	st := map[string]int{"nodes": nodes, "deleted": deleted, "refsum": refSum, "len": o.m.Len(), "open": o.open}
+	nodes, deleted, refSum, stale := iterable.VerifListStats2(o.m)
+	st := map[string]int{"nodes": nodes, "deleted": deleted, "refsum": refSum, "len": o.m.Len(), "open": o.open, "stale": stale}
 	if nodes > o.m.Len()+1+o.open {
+		return false, st
+	}
+	if o.open == 0 && stale != 0 { // with no iterator open, no node outside the live entries may still reference a value
 		return false, st
 	}
 	if o.open == 0 && (nodes > o.m.Len()+1 || deleted != 0) {
@@ -137,7 +140,7 @@ func replayIterMap(b Behaviour, opt *Options) *Failure {
 		if mode != "c10" {
 			if ok, st := o.retention(); !ok {
 				return &Failure{Step: i, Sig: "retention: list keeps more than live entries + pinned entries after " + b[i].Str("op"),
-					Got: st, Want: "nodes <= len+1+open, and open=0 => nodes <= len+1 and deleted=0"}
+					Got: st, Want: "nodes <= len+1+open, and open=0 => nodes <= len+1, deleted=0 and no value referenced by a non-live node"}
 			}
 		}
 	}
@@ -159,6 +162,7 @@ func driveIterMap(opt *Options) error {
 	}
 	keys := []string{"a", "b", "c", "d", "e", "f"}
 	nIt := 8
+	driveIterMapLarge(tw, rnd)
 	for t := 0; t < opt.N; t++ {
 		o := newImObj()
 		tw.Emit(map[string]any{"op": "New"})
@@ -204,7 +208,7 @@ func driveIterMap(opt *Options) error {
 				nextID++
 			}
 			_, st := o.retention()
-			got["nodes"], got["deleted"], got["open"], got["len"] = st["nodes"], st["deleted"], st["open"], st["len"]
+			got["nodes"], got["deleted"], got["open"], got["len"], got["stale"] = st["nodes"], st["deleted"], st["open"], st["len"], st["stale"]
 			tw.Emit(got)
 		}
 		// close everything: with no iterator open nothing removed may be retained
@@ -218,9 +222,87 @@ func driveIterMap(opt *Options) error {
 				break
 			}
 			_, st := o.retention()
-			got["nodes"], got["deleted"], got["open"], got["len"] = st["nodes"], st["deleted"], st["open"], st["len"]
+			got["nodes"], got["deleted"], got["open"], got["len"], got["stale"] = st["nodes"], st["deleted"], st["open"], st["len"], st["stale"]
 			tw.Emit(got)
 		}
 	}
 	return nil
+}
+
+
+// driveIterMapLarge: one history on a map that grows beyond a thousand entries and is drained again
+// while iterators are parked on removed entries (growth / shrink paths of the implementation).
+func driveIterMapLarge(tw *TraceWriter, rnd *rand.Rand) {
+	o := newImObj()
+	tw.Emit(map[string]any{"op": "New"})
+	nextID := 1
+	do := func(s Step) bool {
+		var got Step
+		if p, pv := callPanics(func() { got = o.apply(s) }); p {
+			tw.Emit(map[string]any{"op": s.Str("op"), "crash": firstLine(fmt.Sprint(pv))})
+			return false
+		}
+		if s.Str("op") == "Add" && got["err"] == false {
+			nextID++
+		}
+		_, st := o.retention()
+		got["nodes"], got["deleted"], got["open"], got["len"], got["stale"] = st["nodes"], st["deleted"], st["open"], st["len"], st["stale"]
+		tw.Emit(got)
+		return true
+	}
+	key := func(i int) string { return fmt.Sprintf("k%d", i) }
+	n := 1100 + rnd.Intn(300)
+	for i := 0; i < n; i++ {
+		if !do(Step{"op": "Add", "k": key(i), "v": nextID}) {
+			return
+		}
+	}
+	// two iterators parked a few entries in, the entries under them removed
+	for it := 1; it <= 2; it++ {
+		do(Step{"op": "Iterator", "i": it})
+		for j := 0; j < it*2; j++ {
+			do(Step{"op": "Next", "i": it})
+		}
+	}
+	do(Step{"op": "Remove", "k": key(2)})
+	do(Step{"op": "Remove", "k": key(4)})
+	// drain to well below a quarter of the peak, in a shuffled order
+	order := rnd.Perm(n)
+	left := n
+	for _, i := range order {
+		if left <= n/8 {
+			break
+		}
+		if i < 8 {
+			continue
+		}
+		if !do(Step{"op": "Remove", "k": key(i)}) {
+			return
+		}
+		left--
+	}
+	do(Step{"op": "Len"})
+	for _, i := range []int{0, 2, 4, 5, order[0], order[1]} {
+		do(Step{"op": "Get", "k": key(i)})
+	}
+	do(Step{"op": "Next", "i": 1})
+	do(Step{"op": "Next", "i": 2})
+	do(Step{"op": "Close", "i": 1})
+	do(Step{"op": "Close", "i": 2})
+	for _, i := range []int{0, 2, 4, 5} {
+		do(Step{"op": "Get", "k": key(i)})
+	}
+	do(Step{"op": "Add", "k": key(2), "v": nextID})
+	do(Step{"op": "Get", "k": key(2)})
+	do(Step{"op": "Remove", "k": key(2)})
+	do(Step{"op": "Len"})
+	do(Step{"op": "First"})
+	// a full iteration must return exactly the live entries in insertion order
+	do(Step{"op": "Iterator", "i": 3})
+	for j := 0; j < left+12; j++ {
+		if !do(Step{"op": "Next", "i": 3}) {
+			return
+		}
+	}
+	do(Step{"op": "Close", "i": 3})
 }
